@@ -47,6 +47,32 @@ var c03Menu = []c03Ty{
 	{fo: "[]T", gt: "[]T", foVal: "[9]", goVal: "[]int{9}", show: "fmt.Sprint(%s)", want: "[9]", gen: true},
 }
 
+// c03Ext: further non-generic shapes, offered for the FIRST field / first case / variables / first parameter
+// (the other positions keep the base menu, so that the product stays small)
+var c03Ext = []c03Ty{
+	{fo: "int->int->string", gt: "func(int, int) string", foVal: `(fun (i:int) (j:int) -> frt.Sprintf1 "g%d" (i + j))`, goVal: `func(i, j int) string { return fmt.Sprint("g", i+j) }`, show: "%s(1, 2)", want: "g3", noStr: true},
+	{fo: "[][]int", gt: "[][]int", foVal: "[[1]; [2; 3]]", goVal: "[][]int{{1}, {2, 3}}", show: "fmt.Sprint(%s)", want: "[[1] [2 3]]"},
+	{fo: "[]R0", gt: "[]R0", foVal: "[{A0=5}]", goVal: "[]R0{{A0: 5}}", show: "fmt.Sprint(%s[0].A0)", want: "5"},
+	{fo: "(int*string)*bool", gt: "frt.Tuple2[frt.Tuple2[int, string], bool]", foVal: `((1, "a"), true)`, goVal: `frt.NewTuple2(frt.NewTuple2(1, "a"), true)`, show: "fmt.Sprintf(\"%%v %%v %%v\", %s.E0.E0, %s.E0.E1, %s.E1)", want: "1 a true"},
+	{fo: "[]string*int", gt: "frt.Tuple2[[]string, int]", foVal: `(["a"], 2)`, goVal: `frt.NewTuple2([]string{"a"}, 2)`, show: "fmt.Sprintf(\"%%v %%v\", %s.E0, %s.E1)", want: "[a] 2"},
+	{fo: "G0<int>", gt: "G0[int]", foVal: "{V0=6}", goVal: "G0[int]{V0: 6}", show: "fmt.Sprint(%s.V0)", want: "6"},
+	{fo: "O0<string>", gt: "O0[string]", foVal: `So0 "x"`, goVal: `New_O0_So0("x")`, show: "fmt.Sprint(%s)", want: "(So0: x)"},
+	{fo: "[]U0", gt: "[]U0", foVal: "[X0 4; Y0]", goVal: "[]U0{New_U0_X0(4), New_U0_Y0}", show: "fmt.Sprint(%s)", want: "[(X0: 4) (Y0)]"},
+}
+
+// c03Pick: entry p of the base menu (first `menu` entries) followed, in the first position, by the extension
+func c03Pick(c *explore.Chooser, menu int, first bool) c03Ty {
+	n := menu
+	if first {
+		n += len(c03Ext)
+	}
+	p := c.Choose(n)
+	if p < menu {
+		return c03Menu[p]
+	}
+	return c03Ext[p-menu]
+}
+
 func (t c03Ty) showOf(v string) string {
 	return strings.ReplaceAll(strings.ReplaceAll(t.show, "%s", v), "%%", "%")
 }
@@ -69,6 +95,12 @@ type R0 = {A0: int}
 type U0 =
   | X0 of int
   | Y0
+
+type G0<T> = {V0: T}
+
+type O0<T> =
+  | So0 of T
+  | No0
 
 let three () =
   3
@@ -103,7 +135,7 @@ func c03RecordDriver(maxFields int) func(c *explore.Chooser, k int) *c03Case {
 			if generic {
 				menu = 12
 			}
-			t := c03Menu[c.Choose(menu)]
+			t := c03Pick(c, menu, i == 0)
 			usesT = usesT || t.gen
 			ts = append(ts, t)
 		}
@@ -168,10 +200,9 @@ func c03UnionDriver(maxCases int) func(c *explore.Chooser, k int) *c03Case {
 			if generic {
 				menu = 12
 			}
-			p := c.Choose(menu + 1) // 0 = no payload
 			cc := cas{name: fmt.Sprintf("C%d_%d", i, k)}
-			if p > 0 {
-				t := c03Menu[p-1]
+			if c.Choose(2) == 1 { // 0 = no payload
+				t := c03Pick(c, menu, i == 0)
 				cc.t = &t
 				usesT = usesT || t.gen
 			}
@@ -272,7 +303,7 @@ func c03LetDriver(maxParams int) func(c *explore.Chooser, k int) *c03Case {
 		var fo, cl strings.Builder
 		if c.Choose(4) == 0 {
 			// a variable of each menu type that has a literal
-			t := c03Menu[c.Choose(10)]
+			t := c03Pick(c, 10, true)
 			fmt.Fprintf(&fo, "let tv%d = %s\n\n", k, t.foVal)
 			fmt.Fprintf(&cl, "\tvar x %s = tv%d\n\tfmt.Println(%s)\n", t.gt, k, t.showOf("x"))
 			cs.want = append(cs.want, t.want)
